@@ -18,7 +18,7 @@ CFG = {'assumptions': ["64*len(words) < 2^31 and len(values)*w < 2^31 (Go's int3
         'bitmap.Join/split': 'bitmap.Join([Getw(bm,i,w) for i < 64*len(bm)/w], w)',
 'bitmap.Join': 'bitmap.Join (+ input compared before/after)',
         'bitmap.Getw': 'bitmap.Getw(bitmap.Join(values, w), i, w) for every i',
-        'bitmap.Slice': 'bitmap.Slice (+ input compared before/after)'},
+        'bitmap.Slice': 'bitmap.Slice (+ input compared before/after; 1 case in 8 repeated by 3 callers at once next to 3 callers slicing other ranges of the same bitmap)'},
  'rule': 'cases = Join/Getw: all 7 widths x (every list of 0..3 values over {0,1,2^w-1,2^w,2^64-1}; list lengths '
          'around 1, 2, 3.5 and 5 words of packed bits with 6 value patterns incl. bits above w; random; long lists of '
          '31..33, 64, 100 packed words; huge lists just beyond 2^15 and 2^16 packed bits) - the '
